@@ -71,6 +71,7 @@ type Enc struct {
 	effectFree  map[string]bool
 	havocCalls  map[string]bool
 	nEmb        int
+	nElem       int
 	topFr       *frame
 	topDerefs  map[string]derefVar
 	countHits  map[string]int
@@ -137,6 +138,7 @@ func (x *Enc) run() {
 		x.strs = map[string]Term{}
 		x.countHits = nil
 		x.nEmb = 0
+		x.nElem = 0
 		x.encodeTop()
 		if !x.changed {
 			return
